@@ -317,7 +317,7 @@ def oracle_case(ctx, kind, g, rng, kmax, op, order=1):
 
 def run_oracle(ctx):
     rng = np_seed(ctx, 12)
-    n = ctx.n(14, 70)
+    n = ctx.n(12, 70)
     for kind in gm.KINDS:
         done = 0
         tries = 0
@@ -385,7 +385,7 @@ def run(ctx):
     # correspondence: model vs real refined()
     if dyn_ok:
         rng = np_seed(ctx, 121)
-        n = ctx.n(24, 90)
+        n = ctx.n(18, 90)
         cases = []
         for ki, kind in enumerate(gm.KINDS):
             cs = corr_cases(ctx, kind, rng, n if kind not in ('hex',) else max(8, n // 3))
